@@ -9,15 +9,17 @@
  *     hsel    r|s     cache key = djb(user, djb(le64(rule index | scheme id)))      (see ltv_djbhash)
  *     hmod    n       0: full 32-bit key; n>0: key reduced mod n (forces collisions)
  *     cache   -|n     no auth.cache | auth.cache with max-age n
- *     backend plain|htdigest|htpasswd|none
- *     file    hex     contents of the backend's user file
+ *     backend plain|htdigest|htpasswd|none   (several backend scopes: joined by '+', scope 0 first)
+ *     file    hex     contents of the backend's user file (one per scope, joined by '+')
  *     rule    pfx,scheme(b|d),realm,algorithm-mask,nonce-secret|~,userhash(0|1),require   (byte fields hex)
  *     op      q,METHOD,target_orig,uri.path,Authorization|~,h2ext   one request through mod_auth_uri_handler()
  *             h,idmode,<name>:<value>;...      an HTTP/2 request: the decoded header list goes through the real
  *                         http_request_parse_header() / http_request_validate_pseudohdrs() /
  *                         http_request_headers_process_h2(), then mod_auth_uri_handler()
  *                         -> "h2:<status>" | "m=<method>,x=<h2_connect_ext>,t=<target_orig>,p=<uri.path>/<result>|<cache>"
- *             a,dt        advance both clocks dt seconds, running the 1-second trigger each second
+ *             a,dt        ONE server loop iteration dt seconds later: mod_auth_periodic() on the old second, then clocks += dt
+ *             s,n         n loop iterations one second apart
+ *             b,n         the following requests' config conditions select backend scope n
  *             e,de        shift the wall clock (log_epoch_secs) by signed de
  *             n,rule,ts,rnd,dalgo   mod_auth_append_nonce() with fixed random -> nonce hex
  * Output: one token per op (q: "<result>|<cache dump>").
@@ -114,8 +116,20 @@ static int split(char *s, char **f, int maxf) {
 }
 
 static char tmpdir[256];
-static char userfile[300];
-static void cleanup(void) { if (userfile[0]) unlink(userfile); if (tmpdir[0]) rmdir(tmpdir); }
+#define LTV_MAXSCOPES 4
+static char userfile[LTV_MAXSCOPES][300];
+static void cleanup(void) {
+    for (int i = 0; i < LTV_MAXSCOPES; ++i) if (userfile[i][0]) unlink(userfile[i]);
+    if (tmpdir[0]) rmdir(tmpdir);
+}
+/* backend scopes: what mod_auth_patch_config() / mod_authn_file_patch_config() select per request
+ * when auth.backend / auth.backend.*.userfile are set inside conditions (auth.require and
+ * auth.cache stay global).  Both functions start from `defaults` for every request, so setting
+ * `defaults` before a request yields the configuration a matching condition would yield. */
+static const http_auth_backend_t *scope_backend[LTV_MAXSCOPES];
+static char scope_kind[LTV_MAXSCOPES];
+static buffer *scope_fn[LTV_MAXSCOPES];
+static int nscopes;
 
 static buffer *mkbuf(const char *hex) {
     size_t n; unsigned char *b = ltv_unhex(hex, &n);
@@ -224,15 +238,14 @@ int main(void) {
     const char *td = getenv("TMPDIR");
     snprintf(tmpdir, sizeof(tmpdir), "%s/ltv-auth.XXXXXX", td && *td ? td : "/tmp");
     if (!mkdtemp(tmpdir)) { perror("mkdtemp"); return 2; }
-    snprintf(userfile, sizeof(userfile), "%s/users", tmpdir);
+    for (int i = 0; i < LTV_MAXSCOPES; ++i) snprintf(userfile[i], sizeof(userfile[i]), "%s/users%d", tmpdir, i);
     atexit(cleanup);
 
     plugin_data *p = mod_auth_init();
     authn_plugin_data *pf = mod_authn_file_init();
     p->nconfig = 1;
     pf->nconfig = 1;
-    buffer *fnbuf = buffer_init();
-    buffer_copy_string(fnbuf, userfile);
+    for (int i = 0; i < LTV_MAXSCOPES; ++i) { scope_fn[i] = buffer_init(); buffer_copy_string(scope_fn[i], userfile[i]); }
     static config_plugin_value_t cvlist[3];
     p->cvlist = cvlist;
 
@@ -305,23 +318,38 @@ int main(void) {
             ac->sptree = NULL;
             ac->max_age = (time_t)strtoll(tok[3], NULL, 10);
         }
-        const http_auth_backend_t *backend = NULL;
-        memset(&pf->defaults, 0, sizeof(pf->defaults));
-        if (0 == strcmp(tok[4], "plain")) pf->defaults.auth_plain_userfile = fnbuf;
-        else if (0 == strcmp(tok[4], "htdigest")) pf->defaults.auth_htdigest_userfile = fnbuf;
-        else if (0 == strcmp(tok[4], "htpasswd")) pf->defaults.auth_htpasswd_userfile = fnbuf;
-        if (0 != strcmp(tok[4], "none")) {
-            buffer bn; bn.ptr = tok[4]; bn.used = (uint32_t)strlen(tok[4]) + 1; bn.size = 0;
-            backend = http_auth_backend_get(&bn);
-            if (!backend) { puts("bad-backend"); continue; }
-        }
+        /* tok[4] / tok[5]: backend names / user files, one per backend scope, joined by '+' */
+        nscopes = 0;
+        int bad = 0;
         {
-            size_t n; unsigned char *fc = ltv_unhex(tok[5], &n);
-            int fd = open(userfile, O_WRONLY | O_CREAT | O_TRUNC, 0600);
-            if (fd < 0 || (n && write(fd, fc, n) != (ssize_t)n)) { perror("userfile"); return 2; }
-            close(fd);
-            free(fc);
+            char *sb = NULL, *sf = NULL;
+            char *bt = strtok_r(tok[4], "+", &sb), *ft = strtok_r(tok[5], "+", &sf);
+            for (; bt && ft && nscopes < LTV_MAXSCOPES; bt = strtok_r(NULL, "+", &sb), ft = strtok_r(NULL, "+", &sf)) {
+                scope_backend[nscopes] = NULL;
+                scope_kind[nscopes] = bt[0] == 'p' ? 'p' : 0 == strcmp(bt, "htdigest") ? 'd' : 0 == strcmp(bt, "htpasswd") ? 'w' : 'n';
+                if (0 != strcmp(bt, "none")) {
+                    buffer bn; bn.ptr = bt; bn.used = (uint32_t)strlen(bt) + 1; bn.size = 0;
+                    scope_backend[nscopes] = http_auth_backend_get(&bn);
+                    if (!scope_backend[nscopes]) { bad = 1; break; }
+                }
+                size_t n; unsigned char *fc = ltv_unhex(ft, &n);
+                int fd = open(userfile[nscopes], O_WRONLY | O_CREAT | O_TRUNC, 0600);
+                if (fd < 0 || (n && write(fd, fc, n) != (ssize_t)n)) { perror("userfile"); return 2; }
+                close(fd);
+                free(fc);
+                ++nscopes;
+            }
+            if (bt || ft) bad = bad ? bad : 2;
         }
+        if (bad || 0 == nscopes) { puts(bad == 1 ? "bad-backend" : "bad-op"); continue; }
+        int cur_scope = 0;
+#define SELECT_SCOPE(n) do { \
+            memset(&pf->defaults, 0, sizeof(pf->defaults)); \
+            if (scope_kind[n] == 'p') pf->defaults.auth_plain_userfile = scope_fn[n]; \
+            else if (scope_kind[n] == 'd') pf->defaults.auth_htdigest_userfile = scope_fn[n]; \
+            else if (scope_kind[n] == 'w') pf->defaults.auth_htpasswd_userfile = scope_fn[n]; \
+            p->defaults.auth_backend = scope_backend[n]; \
+        } while (0)
         log_monotonic_secs = (unix_time64_t)strtoll(tok[6], NULL, 10);
         log_epoch_secs = (unix_time64_t)strtoll(tok[7], NULL, 10);
         int nrules = atoi(tok[8]);
@@ -362,9 +390,9 @@ int main(void) {
         if (cfg_err) { puts(cfg_err == 1 ? "cfg-error" : "bad-op"); continue; }
 
         memset(&p->defaults, 0, sizeof(p->defaults));
-        p->defaults.auth_backend = backend;
         p->defaults.auth_require = auth_require;
         p->defaults.auth_cache = ac;
+        SELECT_SCOPE(cur_scope);
         /* config value list as mod_auth_set_defaults() leaves it: global context with auth.cache */
         memset(cvlist, 0, sizeof(cvlist));
         cvlist[0].k_id = 0; cvlist[0].v.u2[0] = 1; cvlist[0].v.u2[1] = ac ? 1 : 0;
@@ -454,14 +482,34 @@ int main(void) {
                 }
             }
             else if (f[0][0] == 'a' && nf == 2) {
+                /* ONE server loop iteration that finds the clock dt seconds later
+                 * (server.c:server_handle_sigalrm): triggers first, on the old second, then the update */
                 long dt = strtol(f[1], NULL, 10);
-                for (long i = 0; i < dt; ++i) {
-                    ++log_monotonic_secs; ++log_epoch_secs;
+                if (dt > 0) {
                     mod_auth_periodic(NULL, p);
+                    log_monotonic_secs += dt; log_epoch_secs += dt;
                 }
                 fputs("t[", stdout);
                 if (ac) dump_tree(ac->sptree, &(int){1});
                 fputc(']', stdout);
+            }
+            else if (f[0][0] == 's' && nf == 2) {
+                /* n loop iterations one second apart */
+                long n = strtol(f[1], NULL, 10);
+                for (long i = 0; i < n; ++i) {
+                    mod_auth_periodic(NULL, p);
+                    ++log_monotonic_secs; ++log_epoch_secs;
+                }
+                fputs("t[", stdout);
+                if (ac) dump_tree(ac->sptree, &(int){1});
+                fputc(']', stdout);
+            }
+            else if (f[0][0] == 'b' && nf == 2) {
+                int n = atoi(f[1]);
+                if (n < 0 || n >= nscopes) { fputs("bad-op", stdout); continue; }
+                cur_scope = n;
+                SELECT_SCOPE(cur_scope);
+                fputs("b", stdout);
             }
             else if (f[0][0] == 'e' && nf == 2) {
                 log_epoch_secs += (unix_time64_t)strtoll(f[1], NULL, 10);
